@@ -201,6 +201,12 @@ def it_next(ctx, it):
         o, i2 = it_next(ctx, f[1])
         return o, Agg(k, None, (i1, i2))
     if k == 'It:take':
+        if is_sym(f[1]):
+            # symbolic count (usize): the inner iterator is finite, so fork on "count exhausted" at each element
+            if ctx.branch(f[1] == 0):
+                return NONE, it
+            o, inner = it_next(ctx, f[0])
+            return o, Agg(k, None, (inner, f[1] - 1))
         if f[1] <= 0:
             return NONE, it
         o, inner = it_next(ctx, f[0])
@@ -732,6 +738,30 @@ def install(prog):
             return float(math.floor(abs(x) + 0.5)) * (1.0 if x >= 0 else -1.0)
         return x - float(math.trunc(x))
 
+    @B('re:^<(u8|u16|u32|u64|usize|i8|i16|i32|i64|isize|u128|i128) as Default>::default$')
+    def b_default_int(ctx, a, callee):
+        return 0
+
+    @B('<bool as Default>::default')
+    def b_default_bool(ctx, a, callee):
+        return False
+
+    @B('<f64 as Default>::default')
+    def b_default_f64(ctx, a, callee):
+        return 0.0
+
+    @B('re:^<(String|std::string::String|&str|str) as Default>::default$')
+    def b_default_string(ctx, a, callee):
+        return ''
+
+    @B('re:^<(Option|std::option::Option) as Default>::default$')
+    def b_default_option(ctx, a, callee):
+        return NONE
+
+    @B('re:^<(Vec|std::vec::Vec) as Default>::default$')
+    def b_default_vec(ctx, a, callee):
+        return VecV(())
+
     @B('re:^<&?bool as Not>::not$')
     def b_not(ctx, a, callee):
         return znot(D(a[0]))
@@ -1122,7 +1152,7 @@ def install(prog):
             return it_of(ctx, v)
         return it_of(ctx, a[0] if ('iter_mut' in callee or re.search(r'<&(\'\w+ )?mut ', callee)) else v)
 
-    @B('BTreeMap::keys', 'HashMap::keys', 'BTreeMap::into_keys')
+    @B('BTreeMap::keys', 'HashMap::keys', 'BTreeMap::into_keys', 'HashMap::into_keys')
     def b_keys(ctx, a, callee):
         return it_seq([k for k, _ in D(a[0]).items])
 
@@ -1250,7 +1280,7 @@ def install(prog):
                 store_it(a[0], it)
                 return False
 
-    @B('re:^<.* as Iterator>::(find|rfind)$')
+    @B('re:^<.* as Iterator>::(find|rfind)$', 're:^<.* as DoubleEndedIterator>::rfind$')
     def b_find(ctx, a, callee):
         it = as_it(ctx, a[0])
         if callee.endswith('rfind'):
@@ -1346,7 +1376,7 @@ def install(prog):
     def b_size_hint(ctx, a, callee):
         return tup(0, NONE)
 
-    @B('core::slice::sort', 'core::slice::sort_unstable', 'Vec::sort', 'Vec::dedup')
+    @B('core::slice::sort', 'core::slice::sort_unstable', 'Vec::sort', 'Vec::dedup', 'slice::sort', 'slice::sort_unstable')
     def b_sort(ctx, a, callee):
         v = R(a[0]).load()
         items = list(v.items)
@@ -1362,7 +1392,7 @@ def install(prog):
         R(a[0]).store(VecV(items))
         return UNIT
 
-    @B('core::slice::sort_by', 'core::slice::sort_unstable_by')
+    @B('core::slice::sort_by', 'core::slice::sort_unstable_by', 'slice::sort_by', 'slice::sort_unstable_by')
     def b_sort_by(ctx, a, callee):
         import functools
         v = R(a[0]).load()
@@ -1371,7 +1401,7 @@ def install(prog):
         R(a[0]).store(VecV(items))
         return UNIT
 
-    @B('core::slice::sort_by_key', 'core::slice::sort_unstable_by_key')
+    @B('core::slice::sort_by_key', 'core::slice::sort_unstable_by_key', 'slice::sort_by_key', 'slice::sort_unstable_by_key')
     def b_sort_by_key(ctx, a, callee):
         import functools
         v = R(a[0]).load()
